@@ -403,7 +403,7 @@ func attrSpecOracle(ctx *Ctx, s *schema.Schema, r *rng.R) {
 			samples = append(samples, sample{scalarSample(7, 0), false}, sample{scalarSample(2, 0), false})
 		} else {
 			samples = append(samples, sample{scalarSample(row.ty, row.ref), true})
-			for _, other := range []int{2, 3, 5, 6, 7, 8, 9, 10, 1} {
+			for _, other := range []int{2, 3, 5, 6, 7, 8, 9, 10, 1, 4} {
 				if other == row.ty {
 					continue
 				}
@@ -940,6 +940,16 @@ func runDispatch(ctx *Ctx) {
 			if ctx.Res.Distribution["dispatch."+class+"."+codec+".ok"]+ctx.Res.Distribution["dispatch."+class+"."+codec+".err"] == 0 {
 				missing = append(missing, class+"/"+codec)
 			}
+		}
+	}
+	// every row of the attribute specification must have had its well-typed sample accepted in the three encodings
+	// (a sample that could not be built or written is skipped: never silently)
+	if rows, _ := loadAttrSpec(); ctx.Res.Distribution["dispatch.attrspec.accepted"] < 3*len(rows) {
+		missing = append(missing, fmt.Sprintf("attrspec.accepted(%d of %d)", ctx.Res.Distribution["dispatch.attrspec.accepted"], 3*len(rows)))
+	}
+	for _, c := range []string{"get", "export", "register", "import"} {
+		if ctx.Res.Distribution["dispatch.object-matrix."+c] < len(s.Objects) {
+			missing = append(missing, fmt.Sprintf("object-matrix.%s(%d of %d objects)", c, ctx.Res.Distribution["dispatch.object-matrix."+c], len(s.Objects)))
 		}
 	}
 	sort.Strings(missing)
